@@ -103,6 +103,17 @@ func runC03(args []string) {
 		limit := c03Limit(ds, k, frac)
 		prm := parameters.Map{catchLimitKeys[k]: limit}
 		c := catchOpen(catchTestdata(ds), prm)
+		if lc%3 == 1 {
+			// the instance has a life behind it: an earlier Initialise(Random) + Randomize (what a previous run of the
+			// same explorer did) -- the limit must be enforced on the CURRENT state after re-initialisation too
+			protect(func() {
+				withWatchdog(20, "CoreModel.Randomize (warm-up)", J{"limit": J{"var": k, "max": limit}}, func() {
+					c.m.Initialise(model.Random)
+					c.m.Randomize()
+				})
+			})
+			stats["loop:warmed-up-instance"]++
+		}
 		var start interface{}
 		if p.chance(0.5) {
 			c.m.Initialise(model.Random) // the starting extreme chosen by the real code
@@ -196,6 +207,12 @@ func runC03(args []string) {
 						ex.SetLogHandler(new(loggers.NullLogger))
 						ex.SetModel(c.m)
 						ex.SetParameters(parameters.Map{"DecisionVariable": "SedimentProduction", "StartingTemperature": 50.0, "CoolingFactor": 0.99})
+						if r%2 == 1 {
+							ex.Initialise() // a previous run of the same explorer instance
+							for it := 0; it < 5; it++ {
+								ex.TryRandomChange()
+							}
+						}
 						ex.Initialise()
 						record(c, nil)
 						for it := 0; it < iters; it++ {
